@@ -279,3 +279,76 @@ func InspectShallow(n ast.Node, fn func(ast.Node) bool) {
 		return fn(x)
 	})
 }
+
+// LitUse describes how a function literal is used by its parent.
+type LitUse struct {
+	Kind   string        // "go", "defer", "arg", "call" (immediately invoked), "assign", "other"
+	Callee string        // for "arg": ObjName of the function the literal is passed to
+	Call   *ast.CallExpr // the call it is an argument of / invoked by
+	Stmt   ast.Stmt      // go/defer statement
+	Var    types.Object  // for "assign": the variable
+}
+
+// UseOfLit finds how literal lit (nested in root) is used.
+func UseOfLit(info *types.Info, root ast.Node, lit *ast.FuncLit) LitUse {
+	var path []ast.Node
+	var found []ast.Node
+	ast.Inspect(root, func(n ast.Node) bool {
+		if found != nil {
+			return false
+		}
+		if n == nil {
+			path = path[:len(path)-1]
+			return false
+		}
+		path = append(path, n)
+		if n == ast.Node(lit) {
+			found = append([]ast.Node{}, path...)
+			return false
+		}
+		return true
+	})
+	if len(found) < 2 {
+		return LitUse{Kind: "other"}
+	}
+	parent := found[len(found)-2]
+	switch p := parent.(type) {
+	case *ast.CallExpr:
+		if ast.Unparen(p.Fun) == ast.Expr(lit) {
+			// immediately invoked: go/defer/plain
+			if len(found) >= 3 {
+				switch s := found[len(found)-3].(type) {
+				case *ast.GoStmt:
+					return LitUse{Kind: "go", Call: p, Stmt: s}
+				case *ast.DeferStmt:
+					return LitUse{Kind: "defer", Call: p, Stmt: s}
+				}
+			}
+			return LitUse{Kind: "call", Call: p}
+		}
+		return LitUse{Kind: "arg", Callee: CalleeName(info, p), Call: p}
+	case *ast.AssignStmt:
+		for i, r := range p.Rhs {
+			if r == ast.Expr(lit) && i < len(p.Lhs) {
+				if id, ok := p.Lhs[i].(*ast.Ident); ok {
+					o := info.Defs[id]
+					if o == nil {
+						o = info.Uses[id]
+					}
+					return LitUse{Kind: "assign", Var: o}
+				}
+			}
+		}
+	case *ast.KeyValueExpr:
+		return LitUse{Kind: "field"}
+	}
+	return LitUse{Kind: "other"}
+}
+
+// Use reports how literal function f is used by its parent.
+func (f *Func) Use() LitUse {
+	if f.Lit == nil || f.Parent == nil {
+		return LitUse{Kind: "other"}
+	}
+	return UseOfLit(f.Info(), f.Parent.Body, f.Lit)
+}
